@@ -134,3 +134,9 @@ unsigned _ZNSt13random_device9_M_getvalEv(void* self) { (void)self; rt_rd_counte
 /* ---- iostream static init: nothing to do */
 void _ZNSt8ios_base4InitC1Ev(void* self) { (void)self; }
 void _ZNSt8ios_base4InitD1Ev(void* self) { (void)self; }
+
+/* ---- type_info objects of fundamental types (std::any / any_cast compare them by address or name) */
+#define FUND_TI(SYM, NAME) const struct ti_class SYM = {&_ZTVN10__cxxabiv123__fundamental_type_infoE[2], NAME};
+FUND_TI(_ZTIi, "i") FUND_TI(_ZTIv, "v") FUND_TI(_ZTIb, "b") FUND_TI(_ZTIc, "c") FUND_TI(_ZTIl, "l") FUND_TI(_ZTIm, "m")
+FUND_TI(_ZTIj, "j") FUND_TI(_ZTIs, "s") FUND_TI(_ZTIt, "t") FUND_TI(_ZTId, "d") FUND_TI(_ZTIf, "f") FUND_TI(_ZTIx, "x") FUND_TI(_ZTIy, "y")
+FUND_TI(_ZTIh, "h") FUND_TI(_ZTIa, "a")
